@@ -33,6 +33,8 @@ def main(rest, tier, seed) -> int:
         return sensitivity(args, tier)
     if cmd == "seeded":
         return seeded(args, tier)
+    if cmd == "anchors":
+        return anchors()
     print(f"unknown selftest {cmd}")
     return 2
 
@@ -149,6 +151,28 @@ def run_check_on(src: str, prop: str, tier: str, timeout=1500, extra_env=None):
     return rc, out, err, time.time() - t0
 
 
+def anchors() -> int:
+    """Only check that every mutant's anchor text still occurs exactly once in the current tree."""
+    bad = 0
+    top = make_scratch("anchors")
+    try:
+        for m in _load_specs():
+            src = os.path.join(top, "src")
+            shutil.rmtree(src)
+            shutil.copytree(os.path.join(REPO, "src"), src, ignore=shutil.ignore_patterns("__pycache__", "*.pyc"))
+            try:
+                apply_edits(src, m)
+                subprocess.run([sys.executable, "-m", "py_compile", os.path.join(src, m["edits"][0][2] if len(m["edits"][0]) > 2 else m["file"])],
+                               check=True, capture_output=True)
+            except Exception as e:  # noqa: BLE001
+                bad += 1
+                print(f"BROKEN {m['name']}: {str(e)[:200]}")
+    finally:
+        shutil.rmtree(os.path.join(SCRATCH_TOP, f"ovmut-{os.getpid()}"), ignore_errors=True)
+    print(f"anchors: {bad} broken")
+    return 1 if bad else 0
+
+
 def sensitivity(sel, tier) -> int:
     muts = _load_specs()
     if sel:
@@ -158,7 +182,12 @@ def sensitivity(sel, tier) -> int:
     for m in muts:
         top = make_scratch(m["name"])
         try:
-            apply_edits(os.path.join(top, "src"), m)
+            try:
+                apply_edits(os.path.join(top, "src"), m)
+            except RuntimeError as e:
+                print(f"{m['name']:42s} {m['prop']}  BROKEN ANCHOR: {e}", flush=True)
+                missed += 1
+                continue
             rc, out, err, wall = run_check_on(os.path.join(top, "src"), m["prop"], tier)
             caught = rc == 1 and f"VIOLATION property={m['prop']}" in out
             if m.get("expect") == "pass":
